@@ -344,6 +344,30 @@ class Check(Property):
             pass
         return v
 
+    def operands_untouched_probe(self):
+        """none of *, /, ** (plain and reflected, with numbers, units and quantities) changes an operand: value and units of every
+        operand read the same afterwards - scaled, offset and logarithmic units, with and without autoconvert_offset_to_baseunit"""
+        import operator
+        import pint
+        v = []
+        for auto in (False, True):
+            r = pint.UnitRegistry(autoconvert_offset_to_baseunit=auto)
+            for un in ("meter", "degC", "degF", "kelvin", "decibel", "kilometer / hour", "percent"):
+                for name, fn in (("2 / q", lambda q: 2 / q), ("2 * q", lambda q: 2 * q), ("q * 2", lambda q: q * 2), ("q / 2", lambda q: q / 2),
+                                 ("q ** 2", lambda q: q ** 2), ("q ** -1", lambda q: q ** -1), ("1 / q", lambda q: 1 / q),
+                                 ("q * q", lambda q: q * q), ("q / unit", lambda q: q / r.second), ("unit * q", lambda q: r.second * q),
+                                 ("q * Q(3, s)", lambda q: q * r.Quantity(3.0, "second")), ("Q(3, s) / q", lambda q: r.Quantity(3.0, "second") / q)):
+                    q = r.Quantity(10.0, un)
+                    before = (q.magnitude, dict(q._units), hash(q._units))
+                    try:
+                        fn(q)
+                    except Exception:  # noqa: BLE001
+                        pass
+                    after = (q.magnitude, dict(q._units), hash(q._units))
+                    if before != after:
+                        v.append(f"C04 {name} with q = 10 {un} (autoconvert={auto}) changed its operand: {before[0]} {before[1]} -> {after[0]} {after[1]}")
+        return v[:8]
+
     def dim_hom_probe(self):
         """the dimensionality of a product, quotient or power is the product, quotient or power of the dimensionalities: for
         unit names AND for derived dimension names ([area], [speed], ...), with integer and rational exponents"""
@@ -387,6 +411,7 @@ class Check(Property):
             # in another interpreter and arrived here through pickle
             from .c18 import Check as C18
             dv += C18.cross_process_probe(self)
+            dv += self.operands_untouched_probe()
             if dv:
                 return dv
         if c["layer"] == "pi":
